@@ -29,7 +29,7 @@ LEVEL_TEXT = ("Real end-to-end runs over generated frame layouts (spacing 1-5 st
 LEVEL_NOTE = "Tolerance 2e-5 relative (float32 fields accumulate u += dU over up to 5 steps). Trusts the harness's layout oracle and netCDF4."
 RULE = ("case = one layout (frame positions in steps, file partition, start, stop, direction, scalars, packing). Non-trivial: the run passes at least one frame step after the "
         "start (a hand-over happens); distinct by (positions, partition, start, stop, direction).")
-MANDATORY = ["frame_passed_while_state_empty", "forward", "reversed", "spacing_equals_dt", "irregular_spacing", "one_frame_per_file", "file_entered_in_middle", "start_on_frame", "start_between_frames",
+MANDATORY = ["warm_start_probe_steps", "warm_start_reaches_last_frame", "files_with_different_time_references", "frame_passed_while_state_empty", "forward", "reversed", "spacing_equals_dt", "irregular_spacing", "one_frame_per_file", "file_entered_in_middle", "start_on_frame", "start_between_frames",
              "scalar_fields", "packed", "handover_steps_observed", "probe_steps", "reads_checked", "first_read_straddles_files", "time_units_hours_or_days", "packed_per_file_parameters"]
 ASSUMPTIONS = ["frames on the model time grid, strictly increasing, covering [start, stop] (as the property quantifies)"]
 TIMEOUT = {"quick": 900, "thorough": 3000}
@@ -147,6 +147,9 @@ def run_case(case: dict[str, Any], wd: Path) -> dict[str, Any]:
     if dt % 3600 == 0 and case["salt"] % 2:
         w["time_units"] = ["hours since 2019-12-31 00:00:00", "days since 2020-01-01 00:00:00"][case["salt"] % 4 // 2]
         sit_units = 1
+    if len(files) > 1 and case["salt"] % 3 == 2 and "time_units" not in w:
+        # every file counts its seconds from another reference time (files produced by different model runs)
+        w["time_units_per_file"] = ["seconds since 2000-01-01 00:00:00", "seconds since 1999-12-31 23:00:00", "seconds since 1970-01-01 00:00:00", "seconds since 2020-02-29 12:00:00"]
     if case["packed"]:
         w["pack"] = {"u": 1.0e-4, "v": 1.0e-4}
         for name in scal_vals:
@@ -187,6 +190,9 @@ def run_case(case: dict[str, Any], wd: Path) -> dict[str, Any]:
     def after_rf(tok, res, self, name, n):
         reads.append(dict(kind="field", name=name, step=int(n), file=Path(self._nc.filepath()).name, val=float(np.asarray(res)[0, 2, 2])))
 
+    warm_tail = bool(not rev and E == P[-1] and abs(E - S) >= 3 and first_rel == 0 and scal_vals and not case["packed"])
+    if warm_tail:
+        run["output"]["numrec"] = 2  # split output: the first file is the starting point of a warm-started continuation (below)
     rec.reset()
     with Hooks() as hk:
         hk.wrap(Forcing, "_read_velocity", None, after_rv)
@@ -194,6 +200,15 @@ def run_case(case: dict[str, Any], wd: Path) -> dict[str, Any]:
         res, conf, world = run_scenario(dict(world=w, run=run), wd)
     log = list(rec.LOG)
     rec.reset()
+    log2: list = []
+    res2 = None
+    if warm_tail and res.ok and len(res.outputs) > 1:
+        # continuation warm-started from the first output file, running up to the stop time = the last forcing frame
+        run2 = dict(run, warm_start=dict(filename=str(res.outputs[0]), variables=list(scal_vals)))
+        run2["output"] = dict(run["output"], filename="out_001.nc")
+        res2, _c2, _w2 = run_scenario(dict(world=None, run=run2), wd / "warm", world=world)
+        log2 = list(rec.LOG)
+        rec.reset()
 
     V: list = []
     sit: dict[str, int] = {}
@@ -210,6 +225,7 @@ def run_case(case: dict[str, Any], wd: Path) -> dict[str, Any]:
     sit["packed"] = int(case["packed"])
     sit["packed_per_file_parameters"] = int("pack_per_file" in w)
     sit["time_units_hours_or_days"] = int("time_units" in w)
+    sit["files_with_different_time_references"] = int("time_units_per_file" in w)
     sit["frame_passed_while_state_empty"] = int(any(0 < s_ <= first_rel for s_ in step_of_frame))
     # first frame read (prestep) in the middle of a file?
     pre = max([s for s in step_of_frame if s < 0], default=0)
@@ -298,4 +314,27 @@ def run_case(case: dict[str, Any], wd: Path) -> dict[str, Any]:
             break
         if V:
             break
+    if res2 is not None and not V:
+        if not res2.ok:
+            V.append(C.viol(f"warm-started continuation over the same forcing did not complete: {res2.exc}", tb=res2.tb[-1200:], **desc))
+        t0s = np.datetime64(t0, "s")
+        for snap in log2:
+            if V:
+                break
+            x = float((np.datetime64(snap["time"], "s") - t0s) / np.timedelta64(1, "s")) / dt
+            if not (P[0] <= x <= P[-1]) or not len(snap["variables"].get("u", [])):
+                continue
+            sit["warm_start_probe_steps"] = sit.get("warm_start_probe_steps", 0) + 1
+            if abs(x - P[-1]) < 1e-9:
+                sit["warm_start_reaches_last_frame"] = 1
+            wu = interp(P, au, x)
+            if abs(float(snap["variables"]["u"][0]) - wu) > tol_rel * (1 + abs(wu)) * 3:
+                V.append(C.viol(f"warm-started run, model time {snap['time']}: forcing.variables['u'] = {float(snap['variables']['u'][0]):.6f}, interpolation between the bracketing frames gives {wu:.6f}", **desc))
+                break
+            for name, vals in scal_vals.items():
+                n_latest = max([n for n in range(nfr) if P[n] <= x + 1e-9], key=lambda n: P[n])
+                got = float(snap["variables"][name][0])
+                if abs(got - vals[n_latest]) > 0.06:
+                    V.append(C.viol(f"warm-started run, model time {snap['time']}: scalar {name} = {got}, the latest frame at or before that time (frame {n_latest}) holds {vals[n_latest]}", **desc))
+                    break
     return C.result(V[:3], sit, cnt, nontrivial=len(handovers) > 0, key=key, sample=sample)
